@@ -6,6 +6,7 @@ section 3.3 with structure kept — never concrete runtime values of evo.
 """
 from __future__ import annotations
 
+import itertools
 from typing import Any, Callable, Iterable, Iterator, Optional, Tuple
 
 
@@ -272,20 +273,55 @@ def _or_simplify(out):
 # ----------------------------------------------------------- 3-valued fold
 def fold(formula: T, assign: Callable[[T], Optional[bool]]) -> Optional[bool]:
     """Evaluate a live-condition under a partial truth assignment of its atoms.
-    Returns True / False / None (unknown).  No solver: plain substitution and
-    Kleene logic."""
+    Returns True / False / None (unknown).  No solver: substitution and Kleene
+    logic, completed by a truth table over the unassigned atoms when there
+    are at most 8 of them (so `a and not (a and b)` with b false is seen to
+    be `a`, and `a or not a` to be true)."""
+    r = _kleene(formula, assign)
+    if r is not None:
+        return r
+    free: list = []
+    _free_atoms(formula, assign, free)
+    if not free or len(free) > 8:
+        return None
+    seen = None
+    for bits in itertools.product((True, False), repeat=len(free)):
+        env = {id(a): b for a, b in zip(free, bits)}
+
+        def full(t, env=env):
+            v = assign(t)
+            return v if v is not None else env.get(id(t))
+        v = _kleene(formula, full)
+        if v is None or (seen is not None and v != seen):
+            return None
+        seen = v
+    return seen
+
+
+def _free_atoms(formula: T, assign, out: list) -> None:
+    if is_const(formula) or assign(formula) is not None:
+        return
+    if formula.op in ("and", "or", "not"):
+        for a in formula.args:
+            _free_atoms(a, assign, out)
+    elif not any(formula is x for x in out):
+        out.append(formula)
+
+
+def _kleene(formula: T, assign: Callable[[T], Optional[bool]]
+            ) -> Optional[bool]:
     if is_const(formula):
         return bool(const_val(formula))
     v = assign(formula)
     if v is not None:
         return v
     if formula.op == "not":
-        r = fold(formula.args[0], assign)
+        r = _kleene(formula.args[0], assign)
         return None if r is None else (not r)
     if formula.op == "and":
         res = True
         for a in formula.args:
-            r = fold(a, assign)
+            r = _kleene(a, assign)
             if r is False:
                 return False
             if r is None:
@@ -294,7 +330,7 @@ def fold(formula: T, assign: Callable[[T], Optional[bool]]) -> Optional[bool]:
     if formula.op == "or":
         res = False
         for a in formula.args:
-            r = fold(a, assign)
+            r = _kleene(a, assign)
             if r is True:
                 return True
             if r is None:
